@@ -52,7 +52,7 @@ def tier(argv_tier=None):
 def tlc(workdir, module, cfg, workers=1, timeout=1800, extra=(), heap="3g", simulate=None, deque=False):
     """Run TLC in workdir (spec files must already be there). Returns stdout text. Raises Infra on tool failure."""
     meta = os.path.join(workdir, "meta-" + os.path.basename(cfg))
-    jopts = ["-Xmx" + heap, "-Xss64m", "-XX:+UseParallelGC"]
+    jopts = ["-Xmx" + heap, "-Xss64m", "-XX:+UseParallelGC", "-Djava.io.tmpdir=" + workdir]   # SANY litters java.io.tmpdir
     if deque:
         jopts.append("-Dtlc2.tool.queue.IStateQueue=StateDeque")
     cmd = ["java"] + jopts + ["-cp", JAR, "tlc2.TLC", "-workers", str(workers), "-metadir", meta, "-config", cfg] + list(extra)
